@@ -67,6 +67,9 @@ th = threading.Thread(target=srv.serve_forever, kwargs={'poll_interval': 0.01}, 
 th.start()
 res = {'reads': [], 'wrq': [], 'reaper_alive_mid': None}
 for i, p in enumerate(images):
+    if not th.is_alive():
+        res['server_thread_died'] = 'the serve_forever thread ended after the requests to image %%d' %% (i - 1)
+        break
     for name, mode, steps in %(requests)r:
         c = Client(srv.server_address, 3.0)
         # a short server timeout only for the transfers this client abandons (they are cleaned up quickly); complete
@@ -81,11 +84,21 @@ for i, p in enumerate(images):
     c = Client(srv.server_address, 1.0)
     c.s.sendto(b'\0\2%%x/new.txt\0octet\0' %% (0x100 + i), srv.server_address)
     r = c.recv(); res['wrq'].append(r[0][:4].hex() if r else None); c.close()
+    # write requests longer than a default-size DATA packet (a long path; a long unknown option after the mode)
+    for big in (b'\0\2%%x/' %% (0x100 + i) + b'n' * 650 + b'\0octet\0', b'\0\2%%x/new.txt\0octet\0' %% (0x100 + i) + b'x' * 560 + b'\0y\0',
+                b'\0\2%%x/d/' %% (0x100 + i) + b'\xc3\xa9' * 400 + b'\0netascii\0'):
+        c = Client(srv.server_address, 1.0)
+        c.s.sendto(big, srv.server_address)
+        r = c.recv(); res['wrq'].append(r[0][:4].hex() if r else None); c.close()
     c = Client(srv.server_address, 0.3); c.s.sendto(b'\0\3\0\1junk', srv.server_address); c.recv(); c.close()
 time.sleep(0.5)
 res['reaper_alive_mid'] = srv.subs.is_alive()
 res['alive'] = len(srv.subs._alive)
-srv.shutdown(); srv.server_close()
+if th.is_alive():
+    srv.shutdown()
+else:
+    res.setdefault('server_thread_died', 'the serve_forever thread ended during the last requests')
+srv.server_close()
 # a table in which EVERY board is pinned to an address: a write request from any other host is still refused with ERROR
 import ipaddress
 pinned = {0x300 + i: Board(0x300 + i, Path(p), parts[i], ipaddress.ip_address('127.0.0.9')) for i, p in enumerate(images[:2])}
@@ -183,6 +196,27 @@ def one_round(ctx, build, rnd):
                         sim.packet(0, 1, b'\0\4\0\1', 5001); sim.packet(0, 1, b'junk', 5002)
                     finally:
                         sim.restore()
+                    # a write request handled WHILE a transfer thread handles another client's ACK (two handler objects alive
+                    # at once, every interleaving of their setup / handle / finish phases): the writer gets its ERROR packet,
+                    # the reader its DATA block -- never each other's reply
+                    for order in ('shSHFf', 'sShHfF', 'sShHFf', 'SshHfF', 'SsHhFf', 'sSHhfF', 'shSHfF', 'SHshFf'):
+                        sim = Sim({}, handler_cls=BootHandler, server_attrs=dict(boards=boards, images=images))
+                        try:
+                            sent, _ = sim.packet(0, 1, b'\0\1' + serial + b'/kernel.img\0octet\0', 6000)
+                            if len(sent) != 1 or sent[0][1][:4] != b'\0\3\0\1':
+                                break
+                            tid = sent[0][0]
+                            out = sim.overlapped((0, 2, b'\0\2' + serial + b'/new.txt\0octet\0'), (tid, 1, b'\0\4\0\1'), order, 6001)
+                            ctx.stat('wrq-overlapping-a-transfer')
+                            to_writer = [b for t, b, a in out if t == 0]
+                            to_reader = [b for t, b, a in out if t == tid]
+                            if len(to_writer) != 1 or to_writer[0][:2] != b'\0\5' or len(to_reader) != 1 or to_reader[0][:4] != b'\0\3\0\2':
+                                ctx.violation('boot.serve/wrq-not-refused', f'a write request handled while a transfer thread handles an ACK (phases {order}, lower case = '
+                                              f'the write request): the writer was sent {[x[:4].hex() + "..(%d bytes)" % len(x) for x in to_writer]} (expected one ERROR packet), the reader '
+                                              f'{[x[:4].hex() + "..(%d bytes)" % len(x) for x in to_reader]} (expected DATA block 2)', dict(image_class=cls, order=order))
+                                return
+                        finally:
+                            sim.restore()
                 ctx.case((cls, tuple(hist)), cls[1] or cls[2] or any(h[2] is not None for h in hist), 'inproc-%s-dirty%d-zero%d' % cls)
         finally:
             for image, fs in images.values():
@@ -211,6 +245,10 @@ def one_round(ctx, build, rnd):
         if not res.get('reaper_alive_mid') or res.get('alive'):
             ctx.violation('boot.serve/reaper-died', f'after serving, reaper alive={res.get("reaper_alive_mid")}, transfers still registered={res.get("alive")}',
                           dict(result=res, classes=[c for _, _, c in imgs]))
+            return
+        if res.get('server_thread_died'):
+            ctx.violation('boot.serve/wrq-not-refused-real', f'{res["server_thread_died"]}; write requests so far were answered by {res["wrq"]} '
+                          f'(None = no answer; the last ones are 600-800 bytes long)', dict(result=res))
             return
         if any(w is None or not w.startswith('0005') for w in res['wrq']):
             ctx.violation('boot.serve/wrq-not-refused-real', f'write requests answered by {res["wrq"]}', dict(result=res))
